@@ -1,7 +1,7 @@
 """C07 - Transit picks exactly one connection, chosen by the sender, key holders only."""
 from twisted.internet import protocol
 
-from ..env import World, RELAY_PORT
+from ..env import World, RELAY_PORT, RELAY2_PORT
 from ..sched import Scheduler
 from ..simnet import unwrap
 from ..transit_work import make_pair, hints_of, Result, link_of
@@ -11,7 +11,7 @@ from wormhole import transit
 PID = "C07"
 LEVEL = "exploration"
 RULE = ("one TransitSender + one TransitReceiver with the derived key; 1-3 addresses per side (routable, "
-        "refused, never answering), listener on/off per side, real transit relay or none; extra "
+        "refused, never answering), listener on/off per side, real transit relay or none or two different relays (one per side, equal priority); extra "
         "contenders: strangers with another key (real Transit objects), garbage talkers, peers that "
         "send only the key-independent handshake prefix and stall, a key holder that sends the sender "
         "handshake but never `go`, a key holder whose sender handshake arrives in two pieces followed by "
@@ -51,7 +51,13 @@ def run_case(spec):
     listen_r = rng.random() < 0.8
     nopath = spec["nopath"]
     world.local_addresses = ["127.0.0.1"] + rng.sample(ADDRS, rng.randint(1, 3))
-    s, rc, key = make_pair(world, relay=relay, listen_s=listen_s, listen_r=listen_r)
+    two_relays = relay and rng.random() < 0.4
+    if two_relays:
+        # the two sides are configured with different relays: both hints have the same priority
+        from ..env import RELAY2_HINT
+        world.start_second_relay()
+    s, rc, key = make_pair(world, relay=relay, listen_s=listen_s, listen_r=listen_r,
+                           relay_r=(RELAY2_HINT if two_relays else None))
     hs, hr = hints_of(s), hints_of(rc)
     # some addresses of each side are unreachable from the other
     bad = {}
@@ -260,7 +266,7 @@ def run_case(spec):
             # through the relay: both links end at the relay, paired with each other
             ps, pr = unwrap(ls.ends[1 - es].protocol), unwrap(lr.ends[1 - er].protocol)
             paired = getattr(getattr(ps, "_buddy", None), "_client", None) is pr or getattr(getattr(pr, "_buddy", None), "_client", None) is ps
-            if not (ls.tags.get("port") == RELAY_PORT and lr.tags.get("port") == RELAY_PORT and paired):
+            if not (ls.tags.get("port") in (RELAY_PORT, RELAY2_PORT) and lr.tags.get("port") == ls.tags.get("port") and paired):
                 viol.append({"key": "C07/results-not-two-ends-of-one-link", "msg": "sender on link %d, receiver on link %d" % (ls.id, lr.id),
                              "witness": wit()})
         else:
@@ -300,7 +306,7 @@ def run_case(spec):
     winner = None
     if both:
         ls, es = link_of(world, cs)
-        winner = "relay" if ls.tags.get("port") == RELAY_PORT else ("dialled-by-sender" if es == 0 else "dialled-by-receiver")
+        winner = "relay" if ls.tags.get("port") in (RELAY_PORT, RELAY2_PORT) else ("dialled-by-sender" if es == 0 else "dialled-by-receiver")
     nontrivial = None
     if len(links) >= 2:
         nontrivial = [relay, listen_s, listen_r, sorted(bad.values()), [k for (k, t) in strangers], len(links), both, winner,
